@@ -35,8 +35,14 @@ CLAIMS['C10'] = dict(ref='DESIGN.md §3 C10',
                      text="Bounded symbolic model checking of Int64/Int32/Uint64/Uint32 (per concrete exponent, coefficient and sign symbolic, plus the two far regions), FromInt64/32/Uint64/32, Decimal.Int (nil and reused *big.Int), Decimal.Rat and FromInt (integers up to 200 bits quick / 300 bits thorough, rounding kernel cut): oracle = exact truncation/saturation/value specification over mathematical integers.",
                      note=TRUST + "math/big is replaced by an exact-integer model with the documented semantics (listed in the evidence); FromRat and FromInt beyond 300 bits are outside the bound.")
 CLAIMS['C14'] = dict(ref='DESIGN.md §3 C14',
-                     text="Bounded symbolic model checking of Decompose (every bit pattern, five caller-buffer shapes, real Compose applied to its output) and Compose (every coefficient byte string up to 6 bytes quick / 10 bytes thorough with all bytes symbolic, both signs, every int32 exponent, all forms): succeeds exactly when sign*coefficient*10^exp is representable (finite disjunction over the exponent shift), never rounds, leaves the receiver alone on error.",
+                     text="Bounded symbolic model checking of Decompose (Inf, NaN and finite patterns with coefficients up to 13 significant bytes, five caller-buffer shapes, real Compose applied to its output) and Compose (every coefficient byte string up to 5 bytes quick / 10 bytes thorough with all bytes symbolic, both signs, every int32 exponent, all forms): succeeds exactly when sign*coefficient*10^exp is representable (finite disjunction over the exponent shift), never rounds, leaves the receiver alone on error.",
                      note=TRUST + "Coefficients longer than the stated byte bound (uint256 and big.Int paths) are outside the claim.")
+CLAIMS['C05'] = dict(ref='DESIGN.md §3 C05, Part A',
+                     text="Bounded symbolic model checking of Parse / UnmarshalText / Scan / MustParse: every byte string up to 5 bytes (4 for UnmarshalText and Scan, 3 for MustParse) with all bytes symbolic against an independent recogniser of the documented syntax, plus digit-heavy literals (up to 45 symbolic digits, decimal point at several positions, optional 4-digit symbolic exponent) that cross the 19-digit and 38/39-digit accumulator switches; the rounding kernel is cut and the harness proves that the literal's exact value (sticky convention) reaches it, that early zero/overflow exits are only taken where they are correct, and the error classes (ErrSyntax / ErrRange).",
+                     note=TRUST + "Bounded string length (longer literals are outside; the property mentions >65k digits). fmt.ScanState is a stub following the interface documentation; strconv.ErrSyntax/ErrRange are opaque distinct values and errors.Is is identity-or-Is-method.")
+CLAIMS['C20'] = dict(ref='DESIGN.md §3 C20, Part A',
+                     text="Totality and purity by bounded symbolic execution: for the entry points listed in the evidence (classification, comparisons, Round/Ceil/Floor regions, New/Ldexp/Frexp, binary form, integer conversions, far-gap Add/Sub, Mul, short Parse/Compose inputs, the rounding kernels) every panic / out-of-range index / nil dereference site is a proof obligation (path condition must be unsat) except the documented panics, which are checked to occur exactly as documented; any store to a package variable by library code fails the check.",
+                     note=TRUST + "Only the listed entry points and argument regions are covered; transcendental functions, division loops, formatting and float conversions are outside. Interleavings are not explored: data-race freedom is argued from the absence of shared writes, not model checked.")
 NA = {
     'C16': "accuracy of the exp/log series is numerical analysis over iterated 192-bit mul/div with data-dependent loops; no bounded solver query decides a one-ulp error bound (DESIGN.md §5)",
     'C17': "convergence of the fixed-count Heron/Halley iterations with symbolic 192-bit division is not expressible as a decidable bounded query (DESIGN.md §5)",
